@@ -577,6 +577,7 @@ class PurityWorld:
                         f"history: {_hist(m)}",
                         exc=type(exc).__name__,
                         transition=_transition(prev["args"], op["args"], self.trace),
+                        reparam=m.get("reparam") or [],
                     )
             m["broken"] = True
             return
@@ -644,6 +645,7 @@ class PurityWorld:
         obj = self.objs[name]
         kind = m["kind"]
         m["twin"] = None
+        rp = m.pop("reparam", None)
         if m.get("params_changed_by_fit"):
             self.count("refit_not_compared_after_reported_parameter_change")
             return
@@ -658,6 +660,8 @@ class PurityWorld:
         trans = _transition(prev["args"], op["args"], self.trace)
         if m.pop("mutated", False):
             trans = "same_buffer_new_values+" + trans
+        if rp:
+            trans = "reparam(" + ",".join(rp) + ")+" + trans
         self.probe("refit_compared:" + trans)
         a, b = public_state(obj), public_state(tw)
         only = sorted(set(a) ^ set(b))
@@ -668,6 +672,7 @@ class PurityWorld:
                 f"after refit ({_hist(m)}) the attributes {only} exist on one side only (refitted vs fresh estimator)",
                 attrs=only,
                 transition=trans,
+                reparam=rp or [],
             )
         for k in sorted(set(a) & set(b)):
             d = same(a[k], b[k], path=k)
@@ -678,6 +683,7 @@ class PurityWorld:
                     f"after refit ({_hist(m)}) attribute {d} between the refitted and a fresh estimator fitted on the new data only",
                     attrs=[k],
                     transition=trans,
+                    reparam=rp or [],
                 )
                 break
         m["twin"] = tw
@@ -805,6 +811,37 @@ class PurityWorld:
             self.log.add(res)
         if op.get("lane") is not None:
             self.results.setdefault(("fn", op["lane"]), []).append((op["fn"], res, op.get("env")))
+
+    def op_SET(self, op, i):
+        """The caller re-parameterises a (possibly fitted) estimator between two fits:
+        set_params(**kw) or plain attribute assignment. Legitimate, so the parameter
+        snapshot is re-taken; the next refit is compared with a fresh estimator built
+        with the merged parameters."""
+        name = op["obj"]
+        obj = self.objs.get(name)
+        m = self.meta.get(name)
+        if obj is None or m is None or m["retired"]:
+            return
+        kw = self.resolve(op["params"])
+        try:
+            if op.get("how") == "setattr" or not hasattr(obj, "set_params"):
+                for k, v in kw.items():
+                    setattr(obj, k, v)
+            else:
+                obj.set_params(**kw)
+        except Exception as e:  # noqa: BLE001
+            self.log.add("SET", name, "raise", type(e).__name__)
+            self.count("set_raised")
+            m["retired"] = True
+            return
+        m["params"] = dict(m["params"], **op["params"])
+        raw = ctor_state(obj)
+        m["params0_raw"] = {k: _copy_param(v) for k, v in raw.items()}
+        m["params0"] = {k: freeze(v) for k, v in raw.items()}
+        m["reparam"] = sorted(op["params"])
+        self.stats["fired"]["caller:reparameterised"] += 1
+        self.log.add("SET", name, sorted(op["params"]))
+        self.check_heap(f"set_params of {m['kind']}", m["kind"], op["params"])
 
     def op_MUTATE(self, op, i):
         """The caller reuses one of its own buffers: new values, same array object."""
